@@ -215,11 +215,22 @@ func c13Recover(c *Ctx) {
 			if !isDefer {
 				continue
 			}
-			mc, isMC := d.Call.Value.(*ssa.MakeClosure)
-			if !isMC {
+			var cl *ssa.Function
+			viaPointer := false
+			if mc, isMC := d.Call.Value.(*ssa.MakeClosure); isMC {
+				cl = mc.Fn.(*ssa.Function)
+			} else if sf := d.Call.StaticCallee(); sf != nil && sf.Blocks != nil && c.isOurs(sf.Pkg.Pkg) {
+				// a named function deferred directly (recover works in the deferred function itself), handed the
+				// address of the error result: defer catchPanic(&err)
+				for _, a := range d.Call.Args {
+					if errName != "" && varNameOfAddr(a) == errName {
+						cl, viaPointer = sf, true
+					}
+				}
+			}
+			if cl == nil {
 				continue
 			}
-			cl := mc.Fn.(*ssa.Function)
 			rec, st := false, false
 			for _, x := range callInstrs(cl) {
 				if b, isB := x.Common().Value.(*ssa.Builtin); isB && b.Name() == "recover" {
@@ -230,6 +241,12 @@ func c13Recover(c *Ctx) {
 				for _, in := range b.Instrs {
 					if s, isS := in.(*ssa.Store); isS && errName != "" && varNameOfAddr(s.Addr) == errName {
 						st = true
+					}
+					if s, isS := in.(*ssa.Store); isS && viaPointer {
+						// store through the pointer parameter that carries the address of the error result
+						if _, isParam := s.Addr.(*ssa.Parameter); isParam && s.Val.Type().String() == "error" {
+							st = true
+						}
 					}
 				}
 			}
